@@ -350,6 +350,7 @@ def check(chk, repo, tier):
                f"wrapper lambda has arity {got}",
                repo.mod("transpile").rel)
     chk.floor("lambda_wrap instances", n_wrap, 300)
+    emitted_arity(chk, repo, gen)
 
     # structure skeletons --------------------------------------------------------
     pp = gen.it.module("vyxal.parse")
@@ -446,6 +447,52 @@ def check(chk, repo, tier):
 WITNESS = {
     "¨ẇ": "1 2 3 2¨ẇ: an arity-1 element consumes 1+n entries",
 }
+
+
+def emitted_arity(chk, repo, gen):
+    """The arity a Lambda structure carries must be the arity its generated
+    function announces (`.arity`, read by every modifier to decide how many
+    entries to take) and the number of arguments it grabs by default."""
+    TF = repo.mod("transpile").rel
+    n = 0
+    for k in (0, 1, 2, 3, 4, "default"):
+        lam = gen.struct("Lambda", k, [gen.generic("NUMBER", "1")])
+        try:
+            text = gen.transpile_ast([lam], 0)
+            tree = ast.parse(text)
+        except Exception:  # noqa: BLE001 - C02 reports generator problems
+            continue
+
+        def value_of(e):
+            if isinstance(e, ast.Constant) and isinstance(e.value, int):
+                return e.value
+            if (dotted(e) or "") == "ctx.default_arity":
+                return "default"
+            return None
+
+        announced = [value_of(a.value) for a in ast.walk(tree)
+                     if isinstance(a, ast.Assign) and any(
+                         isinstance(t, ast.Attribute) and t.attr == "arity"
+                         for t in a.targets)]
+        grabbed = [value_of(c.args[1]) for c in ast.walk(tree)
+                   if isinstance(c, ast.Call) and dotted(c.func) == "wrapify"
+                   and len(c.args) >= 2 and isinstance(c.args[0], ast.Name)
+                   and c.args[0].id == "arg_stack"]
+        grabbed = [g for g in grabbed if g is not None]
+        if not announced or not grabbed:
+            raise AnalysisError(
+                "anchor vanished: the lambda template no longer announces "
+                "`.arity = ...` / grabs `wrapify(arg_stack, <arity>, ...)`")
+        n += 1
+        ok = set(announced) == {k} and set(grabbed) == {k}
+        chk.ob("C09.lambda-announces-its-arity", f"Lambda/arity={k}", ok,
+               f"a lambda of arity {k} is generated with `.arity = "
+               f"{announced}` and takes {grabbed} arguments by default: a "
+               "modifier applying it removes a different number of stack "
+               "entries than the wrapped element consumes", TF,
+               witness="7 8 ~₀  /  ₌+₀ (a nilad under a modifier)"
+               if k == 0 else None, sample={"arity": k})
+    chk.floor("lambda arities compared with their generated text", n, 5)
 
 
 def pop_helper(chk, helpers):
